@@ -80,7 +80,7 @@ def select(fam, t, target):
     return out
 
 
-def run(want, targets=('sse', 'avx', 'mmx'), flagsets=None, fp_data=False, only_float=False, n_scale=1.0, report=None, quick_frac=1, n_small=False):
+def run(want, targets=('sse', 'avx', 'mmx'), flagsets=None, fp_data=False, only_float=False, n_scale=1.0, report=None, quick_frac=1, n_small=False, job_timeout=None):
     """Returns (results, info). flagsets: dict target -> list of (label, flags|'default')"""
     from engines.x86sym import family
     t = tier()
@@ -119,7 +119,7 @@ def run(want, targets=('sse', 'avx', 'mmx'), flagsets=None, fp_data=False, only_
                 bounds = dict(n_max=nm, m_max=2, qt=20000 if t == 'quick' else 120000, max_paths=4000 if t == 'quick' else 20000)
                 jobs.append((p, target, bounds, tuple(want), fp_data))
     t0 = time.time()
-    results = run_jobs(jobs, optable, b.dir, per_job_timeout=(240 if t == 'quick' else 1800))
+    results = run_jobs(jobs, optable, b.dir, per_job_timeout=job_timeout or (240 if t == 'quick' else 1800))
     info['wall'] = time.time() - t0
     info['jobs'] = len(jobs)
     info['exe'] = exe
